@@ -2,20 +2,8 @@
 package main
 
 import (
-	"os"
-
-	"verif/h/checks/c11"
+	_ "verif/h/checks/c11"
 	"verif/h/internal/core"
 )
 
-func main() {
-	if len(os.Args) > 1 && os.Args[1] == "--types" {
-		c11.DumpTypes()
-		return
-	}
-	if len(os.Args) > 1 && os.Args[1] == "--probe" {
-		c11.Probe()
-		return
-	}
-	core.Main()
-}
+func main() { core.Main() }
